@@ -113,3 +113,35 @@ Theorem C03_chain_verdicts_equal : forall exported V facts pkgs stI,
   forall s, V s -> dv stW s = dv stI s.
 Proof. exact chain_verdicts_equal. Qed.
 Print Assumptions C03_chain_verdicts_equal.
+
+(* "Moving functions into a dependency or an importer neither loses nor invents a flow": two partitions of the same program
+   into chains of packages (the unions of their annotations and triggers are permutations of each other), each meeting the
+   side conditions of the chain theorem, end in modular runs that agree on whether there is a conflict ... *)
+From Coq Require Import Permutation.
+From NP Require Import EngineTerm.
+Theorem C03_moving_functions_keeps_flows : forall exported facts pkgs pkgs' stI stI',
+  modular exported facts pkgs stI -> modular exported facts pkgs' stI' ->
+  Permutation (m_ann pkgs) (m_ann pkgs') -> Permutation (m_ts pkgs) (m_ts pkgs') ->
+  wf_triggers (m_ts pkgs) -> wf_triggers (m_ts pkgs') ->
+  (conflicts stI <> nil <-> conflicts stI' <> nil).
+Proof. exact chain_repartition. Qed.
+Print Assumptions C03_moving_functions_keeps_flows.
+
+(* ... and, when neither has one, on the verdict of every site visible at every link of both *)
+Theorem C03_moving_functions_keeps_verdicts : forall exported V facts pkgs pkgs' stI stI',
+  modularV exported V facts pkgs stI -> modularV exported V facts pkgs' stI' ->
+  Permutation (m_ann pkgs) (m_ann pkgs') -> Permutation (m_ts pkgs) (m_ts pkgs') ->
+  wf_triggers (m_ts pkgs) -> wf_triggers (m_ts pkgs') ->
+  conflicts stI = nil -> conflicts stI' = nil ->
+  forall s, V s -> dv stI s = dv stI' s.
+Proof. exact chain_repartition_verdicts. Qed.
+Print Assumptions C03_moving_functions_keeps_verdicts.
+
+(* non-vacuity: the three-package chain of C03_chain_example and the two-package chain obtained by moving every function of
+   its second package into the first meet every hypothesis, and both end in a conflict *)
+Example C03_moving_functions_example :
+  (exists stI, modular exC_exported nil (cons exC_p12 (cons exC_p3 nil)) stI /\ conflicts stI <> nil) /\
+  Permutation (m_ann (cons exC_p1 (cons exC_p2 (cons exC_p3 nil)))) (m_ann (cons exC_p12 (cons exC_p3 nil))) /\
+  Permutation (m_ts (cons exC_p1 (cons exC_p2 (cons exC_p3 nil)))) (m_ts (cons exC_p12 (cons exC_p3 nil))) /\
+  wf_triggers (m_ts (cons exC_p1 (cons exC_p2 (cons exC_p3 nil)))) /\ wf_triggers (m_ts (cons exC_p12 (cons exC_p3 nil))).
+Proof. split; [exact exC_chain2|exact exC_repartition_hyps]. Qed.
